@@ -2,6 +2,7 @@
 """C16 - references to embedded sub-documents resolve to where they are stored.
 
 proof:          lean/OdfModel/Props/C16.lean (ref_names_folder_partial, reload_keeps_refs_partial, finding_*)
+                lean/OdfModel/Props/C16Names.lean (objectName_free, setFolderKids_folder, descending_then_default, path_name_inside_out)
                 about lean/OdfModel/Pkg.lean (`step`/`run` = addObject, `save`, `load`)
 correspondence: (A) attachment histories (2-7 documents, default and explicit names, nesting, any attach order, objects
                 with pictures) run on the real library and through `drv_pkg hist`: returned references, the saved
@@ -14,6 +15,9 @@ oracle:         every reference returned by addObject names a folder that is in 
                 and other files of a sub-document are still below its folder.  The loaded document is saved three times (the
                 same in-memory document: a backup, then the real file ...) and the statements are evaluated on each package;
                 a built document is saved twice and its references must resolve in both packages.
+                A reference handed out while the holder was not yet part of the saved document is read below the folder in which
+                the top of the holder's tree (at that time) is stored: there it names the object's folder (explicit names that are
+                paths, "Charts/Sales", inside-out and outside-in; explicit numbered names followed by default names).
 """
 import io, json
 import pkgcommon as pk
@@ -25,9 +29,56 @@ OBJECT_SIGS = set(x + y for x in ('object-not-stored-once', 'object-styles-missi
 # entry points for the second and third save of a loaded document (the first goes through save(file object))
 RESAVE_VIAS = [('fileobj', 'fileobj'), ('write', 'name'), ('name+suffix', 'write'), ('name', 'fileobj')]
 NAMES = [u'/MyObj', u'MyObj', u'/Object 9', u'/Object 1', u'Object 2', u'/Obj/x', u'//Sub obj', u'\xe9\u6f22']
+# explicit names that are paths of their own ("Charts/Sales": a folder below the holder's folder), with blanks, dots, non-ASCII;
+# pairs with the same last component, pairs where one is the first component of the other
+PATH_NAMES = [u'Charts/Sales', u'Tables/Sales', u'/Charts/Sales', u'a/b/c', u'a/b/d', u'x/b/c', u'a b/c d', u'My Charts/Sales 2024', u'v1.2/x.y',
+              u'.hidden/obj', u'obj.d/1', u'\xe9t\xe9/\u6f22', u'\u6f22/Sales', u'Sales', u'c', u'Object 1/Object 1', u'Objects/Object 1',
+              u'Object 1/x', u'deep/er/and/deeper/obj', u'Charts/Sales/Q1']
 
 
 # ------------------------------------------------------------------------------------------------ generation
+def gen_paths(rng):
+    """holders assembled inside-out and outside-in: chains and small trees of 3-6 documents in which most objects get an explicit
+    name from PATH_NAMES, and the order of the addObject calls is any order (a holder gets its objects before or after it is
+    attached itself, also two levels deep)"""
+    n = rng.choice([3, 3, 4, 5, 6])
+    docs = [{'kind': 'text' if (i == 0 or rng.random() < 0.6) else 'spreadsheet', 'settings': False,
+             'pics': [c03.gen_pic(rng, j) for j in range(rng.choice([0, 0, 1]))]} for i in range(n)]
+    # a tree over 0..n-1 rooted in 0 (depth <= 3), then the edges in a random order
+    parent = {}
+    depth = {0: 0}
+    for c in range(1, n):
+        p = rng.choice([x for x in range(c) if depth[x] < 3])
+        parent[c] = p; depth[c] = depth[p] + 1
+    edges = [[parent[c], c] for c in range(1, n)]
+    order = rng.choice(['inside-out', 'inside-out', 'any', 'any', 'outside-in'])
+    if order == 'inside-out':
+        edges.sort(key=lambda e: -depth[e[1]])
+    elif order == 'any':
+        rng.shuffle(edges)
+    pool = rng.sample(PATH_NAMES, 6)        # a small pool: two objects of one holder ask for the same name now and then
+    ops = [[p, c, rng.choice(pool) if rng.random() < 0.75 else None] for p, c in edges]
+    return {'mode': 'hist', 'docs': docs, 'ops': ops}
+
+
+def gen_numbered_hist(rng):
+    """one holder (the saved document, or an object of it that is attached before or after) gets objects under explicit numbered
+    names (c03.numbered_nums: descending / with gaps / equal to the next default name), then under default names"""
+    e = rng.choice([1, 2, 2, 3, 4])
+    names = [u'Object %d' % k for k in c03.numbered_nums(rng, e)] + [None] * rng.choice([1, 1, 2, 3])
+    if rng.random() < 0.25:
+        names.insert(rng.randrange(e), None)
+    names = names[:6]
+    holder = rng.choice([0, 0, 1])
+    n = len(names) + 1 + holder
+    docs = [{'kind': 'text' if (i == 0 or rng.random() < 0.5) else 'spreadsheet', 'settings': False,
+             'pics': [c03.gen_pic(rng, j) for j in range(rng.choice([0, 0, 1]))]} for i in range(n)]
+    ops = [[holder, holder + 1 + i, nm] for i, nm in enumerate(names)]
+    if holder:
+        ops.insert(rng.choice([0, 0, len(ops)]), [0, 1, rng.choice([None, u'Holder'])])
+    return {'mode': 'hist', 'docs': docs, 'ops': ops}
+
+
 def gen_hist(rng, mode):
     n = rng.choice([2, 3, 3, 4, 5, 6, 7])
     docs = []
@@ -142,8 +193,14 @@ def run_hist(chk, drv, h, oracle_only=False):
         refs = []                                       # per op: the returned reference, or None if the call raised ValueError
         parents = {}                                    # child -> [parent, ...] of the successful calls
         refused = set()
+        holder_now = {}                                 # child -> the document it hangs in, as the calls so far made it
+        given_under = []                                # per op: the document that was the top of the holder's tree when the call was made
         for i, (p, c, name) in enumerate(h['ops']):
             before = (list(ms[p].real.childobjects), [m.real.folder for m in ms])
+            t_ = p
+            while t_ in holder_now:
+                t_ = holder_now[t_]
+            given_under.append(t_)
             try:
                 r = ms[p].real.addObject(ms[c].real, name)
             except ValueError:
@@ -154,6 +211,7 @@ def run_hist(chk, drv, h, oracle_only=False):
                 continue
             refs.append(r)
             parents.setdefault(c, []).append(p)
+            holder_now.setdefault(c, p)
             if h['docs'][p]['kind'] == 'text':
                 frame_for(ms[p].real, c, r)
         twice = any(len(v) > 1 for v in parents.values())
@@ -188,6 +246,50 @@ def run_hist(chk, drv, h, oracle_only=False):
         if twice:
             chk.count('outside_model_attached_twice')
             return fails, refs, arch
+        # PENDING (found on the unchanged tree in round 7, reported to the integrator): an explicit name that is a path can be equal
+        # to the folder of an object nested in a sibling ("Object 1/Object 1" given to the saved document whose "Object 1" holds an
+        # "Object 1" of its own): addObject only compares with the names of the direct objects, two sub-documents end up in one
+        # folder.  Decidable class, computed from the calls and the returned references alone: two attached documents whose
+        # folders (holder's folder + own name; own name = the explicit name without leading "/", else the last component of the
+        # reference) are equal, one of the own names containing "/".  Counted, not failed, until the integrator decides.
+        own, hold = {}, {}
+        for (p, c, name), r in zip(h['ops'], refs):
+            if r is not None:
+                own[c] = name.lstrip(u'/') if name is not None else r.rsplit(u'/', 1)[1]
+                hold[c] = p
+        def folder_of(c):
+            return u'' if c == 0 else folder_of(hold[c]) + own[c] + u'/'
+        at = {}
+        for c in sorted(own):
+            if reachable(c):
+                at.setdefault(folder_of(c), []).append(c)
+        if any(len(v) > 1 and any(u'/' in own[c] for c in v) for v in at.values()):
+            # a genuine defect of the unchanged tree, recorded as KF-C16-3: reported under its own signature (the oracle's other
+            # reports about such a history are consequences of the two documents sharing one folder)
+            chk.count('known_path_name_equals_folder_of_nested_object')
+            chk.count('known_path_name_equals_folder_of_nested_object_oracle_reports', len(fails))
+            shared = sorted(f for f, v in at.items() if len(v) > 1)
+            return [('path-name-equals-folder-of-nested-object',
+                     'addObject accepted an explicit path name that is the folder of an object nested in a sibling: %s hold two documents each' % shared)], refs, arch
+        # ---- oracle: a reference handed out while the holder was not yet part of the saved document (the holder, or a document
+        # the holder hangs in, was attached afterwards) was returned for the package whose root was the top of the holder's tree at
+        # that time.  That document is stored in exactly one folder T of the saved package (found by its marker): the reference,
+        # read below T, names the folder with the object's content.xml and styles.xml, declared with its media type.  (Read from
+        # the root of the saved package the same string is stale: that is KF-C16-2 above.)  Two references of one such tree are
+        # two different folders.
+        where = pk.folder_of_objects(arch)
+        for i, ((p, c, name), r) in enumerate(zip(h['ops'], refs)):
+            t_ = given_under[i]
+            if r is None or t_ == 0 or not reachable(c) or not r.startswith('./'):
+                continue
+            T = where.get(t_, [])
+            if len(T) != 1:
+                continue                    # the holder's tree is not stored once: object-not-stored-once reports it below
+            chk.count('refs_checked_below_the_document_they_were_given_under')
+            why = pk.resolve_ref(arch, u'./' + T[0] + r[2:], c, ms[c].mimetype)
+            if why is not None:
+                fails.append(('reference-does-not-resolve-below-its-holder', 'addObject(%d <- %d, %r) returned %r while document %d was the top of '
+                              'its tree; document %d is stored in %r of the saved package: %s' % (p, c, name, r, t_, t_, T[0], why)))
         # the rest of the archive must be truthful too (pictures of objects under their folder ...)
         top = ms[0]
         def link(m, i):
@@ -540,6 +642,10 @@ def gen_cases(chk, n):
     for k in ((1, 2, 3, 4) if chk.tier == 'thorough' else (1, 2, 3)):
         for h in all_histories(k):
             yield h
+    for i in range(n // 7):
+        yield gen_paths(rng)
+    for i in range(n // 14):
+        yield gen_numbered_hist(rng)
     for i in range(n):
         x = rng.random()
         if x < 0.45:
@@ -563,7 +669,7 @@ def run(chk, replay=None):
                 'document attached twice or to itself (refused); 30% explicit names from a small pool (duplicates -> ValueError, checked to be atomic); each document with 0-2 pictures, references written into the parent '
                 'as draw:object; every built document is saved twice, every saved package is loaded and the loaded document saved three times (second and third time through write() / save(name) / save(name, addsuffix)), references, object folders and the objects\' own files checked against the loaded package each time; 20% hand-made packages with object folders '
                 'numbered 7 / 2,5 / 2,1 / 100 ... with pictures, other files and nested objects, 30% of them with 10-12 objects of distinct content and media type, half of those in permuted manifest order; plus ALL histories that attach 1..3 (thorough: 4) '
-                'objects in every order under every admissible parent, nesting <= 3; non-trivial = at least one reference')
+                'objects in every order under every admissible parent, nesting <= 3; plus n/7 trees of 3-6 documents attached inside-out / in any order / outside-in with 75% explicit path names ("Charts/Sales", "a/b/c", blanks, dots, non-ASCII, same last component) and n/14 holders with explicit numbered names (descending, with gaps, equal to the next default) followed by default names; non-trivial = at least one reference')
     if replay is not None:
         fails, refs, arch = run_case(chk, None, replay['input'], oracle_only=True)
         print('replay: refs=%r' % (refs,))
@@ -572,7 +678,7 @@ def run(chk, replay=None):
             print('replay: %s: %s' % (sig, d))
         return 1 if any(sig == replay.get('signature') for sig, d in fails) else 0
     chk.assumptions.append('attaching the saved document below another one, or a parent into its own subtree, is outside the model (not generated)')
-    chk.prove(modules=['OdfModel.Props.C16', 'OdfModel.Props.C16Xml'], drivers=['drv_pkg'])
+    chk.prove(modules=['OdfModel.Props.C16', 'OdfModel.Props.C16Xml', 'OdfModel.Props.C16Names'], drivers=['drv_pkg'])
     drv = chk.driver('drv_pkg')
     n = 5000 if chk.tier == 'thorough' else 700
 
